@@ -211,10 +211,12 @@ def forgetMap : SM K V Q Unit := fun s =>
   .ok () { r := Raw.new s.r.cap,
            w := { s.w with leaked := s.w.leaked ++ liveObjs s.r s.r.cap } }
 
-/-- drop the container and put a fresh `new()` in the register. -/
-def dropAndRenew : SM K V Q Unit := do
-  dropMap E
-  modS fun s => { s with r := { s.r with len := 0 } }
+/-- drop the container (what is still ghost-live afterwards — slots beyond `len`, or the
+    rest after a panicking element drop — is leaked) and put a fresh `new()` in the register. -/
+def dropAndRenew : SM K V Q Unit :=
+  unwindWith forgetMap do
+    dropMap E
+    forgetMap
 
 def entriesOf (r : Raw K V) : SM K V Q (List (K × V)) :=
   if r.len ≤ r.cap then iterRestR r r.len 0 else throwP .oob
@@ -242,21 +244,34 @@ def drainOp (take : Nat) (forget : Bool) : SM K V Q (List (K × V) × Nat × Lis
     drainDrop E lo hi
     pure (items, remaining, rest)
 
-/-- `into_iter()`, `take` calls of `next`, then drop or forget the iterator.  The register
-    is left holding a fresh `new()`. -/
-def intoIterTake : Nat → SM K V Q (List (K × V))
+/-- `IntoKeys::next` / `IntoValues::next`: `self.iter.next().map(|p| p.0)` drops the other half. -/
+def intoIterNextK (kind : IntoKind) : SM K V Q (Option (K × V)) := do
+  match ← intoIterNext with
+  | none => pure none
+  | some p =>
+    match kind with
+    | .pairs => pure (some p)
+    | .keys => do
+      unwindWith (dropK p.1) (dropV E p.2)
+      pure (some p)
+    | .values => do
+      unwindWith (dropV E p.2) (dropK p.1)
+      pure (some p)
+
+def intoIterTake (kind : IntoKind) : Nat → SM K V Q (List (K × V))
   | 0 => pure []
   | n + 1 => do
-    match ← intoIterNext with
+    match ← intoIterNextK E kind with
     | none => pure []
     | some p =>
-      let rest ← intoIterTake n
+      let rest ← intoIterTake kind n
       pure (p :: rest)
 
 /-- returns the items taken, `len()` afterwards and the entries `Debug` shows at that
     point (`self.map.iter()`: ascending, not in yield order). -/
-def intoIterOp (take : Nat) (forget : Bool) : SM K V Q (List (K × V) × Nat × List (K × V)) := do
-  let items ← intoIterTake take
+def intoIterOp (kind : IntoKind) (take : Nat) (forget : Bool) :
+    SM K V Q (List (K × V) × Nat × List (K × V)) := do
+  let items ← intoIterTake E kind take
   let remaining ← getLen
   let s ← getS
   let rest ← entriesOf s.r
@@ -442,7 +457,7 @@ def stepMapOp (R : Render K V) (other : Nat → Raw K V) : MapOp K V Q → SM K 
     pure (.list [.list (items.map fun p => .pair p.1 p.2), .nat remaining,
       .str (renderRest R .iter false rest)])
   | .into_iter kind take forget => do
-    let (items, remaining, rest) ← intoIterOp E take forget
+    let (items, remaining, rest) ← intoIterOp E kind take forget
     let f : K × V → RV K V := match kind with
       | .pairs => fun p => .pair p.1 p.2
       | .keys => fun p => .key p.1
